@@ -248,6 +248,13 @@ theorem termios_sites_are_the_modelled_ones :
       ["renderable._renderable:Renderable.draw", "utils:query_terminal", "utils:read_tty",
        "utils:write_tty"] := by decide
 
+/-- SIGNALS.  Nowhere does the package import `signal`, install a handler or touch the signal
+    mask (`pthread_sigmask`, `siginterrupt`, `set_wakeup_fd`, …): a SIGINT is therefore an
+    exception at an action boundary, which is what the fault plans of this file are.  Code that
+    defers SIGINT breaks this obligation; the check then relies on the pending-signal model of the
+    fake system-call layer and on real signals on a real pty. -/
+theorem no_signal_handling : Generated.signalSites = [] := by decide
+
 /-- defaults the model relies on: `read_tty()` is the non-blocking mode with `min = 0`, echo off;
     `query_terminal`'s `timeout or _query_timeout` is never `None`/0 (so the nested read is timed);
     `draw` suppresses echo and hides the cursor by default -/
